@@ -201,25 +201,30 @@ class Election:
         "return the election record as a dict"
         return dict(self.erecord)
 
-    def report(self, intr=False):
-        "return the election record as a formatted report"
-        if intr and not self.intr_logged:
+    def _interrupted(self):
+        "note the interruption in the record, once, and make sure the record header exists"
+        if not self.erecord.filled:     # interrupted before the first count action
+            self.erecord._fill()        # pylint: disable=protected-access
+        if not self.intr_logged:
             self.log('** count interrupted; this round is incomplete **')
             self.intr_logged = True
+
+    def report(self, intr=False):
+        "return the election record as a formatted report"
+        if intr:
+            self._interrupted()
         return self.erecord.report(intr)
 
     def dump(self, intr=False):
         "return the election record as tab-separated fields"
-        if intr and not self.intr_logged:
-            self.log('** count interrupted; this round is incomplete **')
-            self.intr_logged = True
+        if intr:
+            self._interrupted()
         return self.erecord.dump()
 
     def json(self, intr=False):
         "return the election record as a JSON string"
-        if intr and not self.intr_logged:
-            self.log('** count interrupted; this round is incomplete **')
-            self.intr_logged = True
+        if intr:
+            self._interrupted()
         return self.erecord.json()
 
     class Ballot:
